@@ -10,7 +10,7 @@ CLAIMED = {
          "For every (layout, operation) where the command succeeds, the bytes before and after are compared line by line: every original line must survive byte for byte (text and line ending) in order; additions must be one contiguous block; stop/switch may only replace the placeholder run by one token and append text to the entry's last line; pause --extend may only replace the duration token; a final unterminated line may only gain a line ending when lines follow it.",
          "Trusted: the physical-line splitter and the per-class edit shapes (taken from the statement). Quick uses every 13th layout of the formatting product.",
          "DESIGN.md §4 C03"),
- "C05": ("bounded exhaustive product of valid and invalid files (every single fault-catalogue edit of 13 files) x 87 commands incl. failure-directed ones, all through the complete CLI with real exit status and real write path",
+ "C05": ("bounded exhaustive product of valid and invalid files (every single fault-catalogue edit of 15 files) x 76 commands incl. failure-directed ones, all through the complete CLI with real exit status and real write path",
          "For every (file, command): exit 0 implies the file on disk parses without errors (klog and reference); exit != 0 implies identical bytes, an error message, and no other file in the directory; a panic is a violation. Multi-step commands whose second step fails are included.",
          "Trusted: specmodel (lenient reading of klog's own don't-care zones). I/O faults and crash points are outside the property's quantifier.",
          "DESIGN.md §4 C05"),
@@ -22,7 +22,7 @@ CLAIMED = {
          "Every minute of the day is tried for every combination; the written time must denote exactly the rounded instant relative to the target record's date, stop's fallback must follow the documented rule, --now totals must equal the reference closing, and whenever the time is unrepresentable or a range cannot be closed the command must fail with a message and leave the file untouched - never crash, never write another time.",
          "Trusted: cmdmodel.go (rounding: nearest multiple, ties up; shift by +-24h; representable range) and specmodel.CloseAt.",
          "DESIGN.md §4 C17"),
- "C04": ("explicit-state search over command histories (state = file bytes): all command sequences up to depth 3/4 over a 72-command alphabet from 12 initial files, plus all pause tick sequences; every transition compared with an abstract record-list model",
+ "C04": ("explicit-state search over command histories (state = file bytes): all command sequences up to depth 3/4 over a 61-command alphabet from 15 initial files, plus all pause tick sequences; every transition compared with an abstract record-list model",
          "Every transition of the explored history graph executes the real command on a real file (first command and a fixed stride through the complete CLI, the rest through the command structs on the real context) and is compared with the abstract model applied to the reference reading of the file before: success/failure, failure leaves the bytes untouched, success yields exactly the predicted records (values, summaries, order, chronological position of new records) under the reference parser, and klog re-reads its own output.",
          "Trusted: the abstract command model (cmdmodel.go) and specmodel. Depth 3 (quick) / 4 (thorough); fixed clock.",
          "DESIGN.md §4 C04"),
@@ -75,7 +75,7 @@ CLAIMED = {
          "Trusted: specmodel parser and the independent canonical renderer. Should-total compared by value; irregular dash spacing may normalise either way (the statement does not say).",
          "DESIGN.md §4 C09"),
  "C01": ("bounded exhaustive enumeration of documents from the spec grammar and of all single/double rule-violating edits, three-way compared (generator denotation = reference parser = klog)",
-         "Every document of the stated families (1-3 records x value menus, the full formatting product, every time/duration literal in a skeleton, every single and double edit from a 103-operator catalogue at every line) is parsed by the real parser and compared with an independent reference parser written from the specification: accept/reject and the full denotation (dates, should-totals, summaries, entry kinds, times with shifts and notation, durations with sign notation, dash spacing, placeholder length). The space is enumerated completely, not sampled.",
+         "Every document of the stated families (1-3 records x value menus, the full formatting product, every time/duration literal in a skeleton, every single and double edit from a 102-operator catalogue at every line) is parsed by the real parser and compared with an independent reference parser written from the specification: accept/reject and the full denotation (dates, should-totals, summaries, entry kinds, times with shifts and notation, durations with sign notation, dash spacing, placeholder length). The space is enumerated completely, not sampled.",
          "Trusted: specmodel.Parse (cross-checked against the generator's by-construction denotation on every grammar-derived document), don't-care zones listed in DESIGN §3.1, Go's Unicode tables. Bounds: <=3 records, <=3 entries per record, edit pairs on 14 (quick) / 60 (thorough) base documents.",
          "DESIGN.md §4 C01"),
  "C16": ("exhaustive finite-domain sweeps (all time strings, all time pairs, all time+duration sums, all date strings, all duration layouts) against the reference value grammar and integer arithmetic",
